@@ -595,9 +595,15 @@ def select__distinct_values(self: XPathFunction, context: ta.ContextType = None)
                     yield value
                     results.append(value)
 
-            elif value not in results:
+            elif not any(same_value(value, x) for x in results):
                 yield value
                 results.append(value)
+
+    def same_value(value1: AtomicType, value2: AtomicType) -> bool:
+        try:
+            return bool(value1 == value2)
+        except (TypeError, ValueError, ArithmeticError):
+            return False  # values that cannot be compared are distinct
 
     if len(self) < 2:
         collation = self.parser.default_collation
